@@ -16,6 +16,10 @@ _ValueType = TypeVar("_ValueType")
 
 class Aggregate(Transform[Jacobians, Gradients]):
     def __init__(self, aggregator: Aggregator, key_order: Iterable[Tensor]):
+        # key_order is traversed by each of the three sub-transforms: a one-shot iterable (e.g. a
+        # generator) has to be materialized first.
+        key_order = list(key_order)
+
         matrixify = _Matrixify(key_order)
         aggregate_matrices = _AggregateMatrices(aggregator, key_order)
         reshape = _Reshape(key_order)
